@@ -5,6 +5,13 @@ package parser
 // Contracts for property C01, narrow claim: the scanner never indexes or slices the source text
 // out of range (every implicit index/slice check in these functions is an obligation: "safe").
 
+// Assumed: these read their arguments only (string formatting of runes and strings, keyword table lookup).
+//@ extern fmt.Sprintf github.com/dop251/goja/token.IsKeyword
+
+// The source text is set once, when the parser is created (every store is checked by the stable scan).
+//@ constructor-of _parser _newParser
+//@ stable _parser.str _parser.length
+
 //@ func isLineTerminator pure
 //@ func isLineWhiteSpace pure
 //@ func digitValue pure
@@ -20,6 +27,20 @@ package parser
 //@   trusted
 //@   assigns self.errors
 
+// Assumed frames of helpers that are not verified here: they build strings from their arguments.
+//@ func parseStringLiteral
+//@   props C01
+//@   trusted
+//@   assigns nothing
+//@ func normaliseCRLF
+//@   props C01
+//@   trusted
+//@   assigns nothing
+//@ func (*_parser).isBindingId
+//@   props C01
+//@   trusted
+//@   assigns nothing
+
 //@ func (*_parser)._peek safe
 //@   props C01
 //@   requires specLexWF(self)
@@ -30,7 +51,7 @@ package parser
 //@   requires specLexWF(self)
 //@   ensures specLexWF(self) && self.chrOffset >= old(self.chrOffset) && self.offset >= old(self.offset) [cursor-wf-and-monotone]
 //@   ensures self.str == old(self.str) && self.length == old(self.length) [text-unchanged]
-//@   ensures old(self.offset < self.length) ==> self.chrOffset == old(self.offset) && self.chr != -1 [advances-unless-eof]
+//@   ensures self.chrOffset == old(self.offset) && (old(self.offset < self.length) ==> self.chr != -1) [cursor-moves-to-next-char]
 //@   assigns self.chrOffset, self.offset, self.chr, self.errors
 
 //@ func (*_parser).skipSingleLineComment safe
@@ -61,8 +82,8 @@ package parser
 //@ func (*_parser).scanMantissa safe
 //@   props C01
 //@   requires specLexWF(self)
-//@   loop 1 invariant specLexWF(self) [cursor-wf]
-//@   ensures specLexWF(self) [cursor-wf]
+//@   loop 1 invariant specLexWF(self) && self.chrOffset >= old(self.chrOffset) && self.str == old(self.str) [cursor-wf]
+//@   ensures specLexWF(self) && self.chrOffset >= old(self.chrOffset) && self.str == old(self.str) [cursor-wf-and-monotone]
 
 //@ func (*_parser).scanNewline safe
 //@   props C01
@@ -84,6 +105,7 @@ package parser
 //@   loop 2 invariant specLexWF(self) && 0 <= offset && offset <= self.chrOffset [cursor-wf]
 //@   loop 3 vars offset int, j int
 //@   loop 3 invariant specLexWF(self) && 0 <= offset && offset <= self.chrOffset && j >= 0 [cursor-wf]
+//@   ensures specLexWF(self) [cursor-wf]
 
 //@ func (*_parser).scanEscape safe
 //@   props C01
@@ -100,3 +122,47 @@ package parser
 //@   requires specLexWF(self) && 0 <= offset && offset < self.chrOffset
 //@   loop 1 vars offset int, quote rune
 //@   loop 1 invariant specLexWF(self) && 0 <= offset && offset < self.chrOffset && self.str == old(self.str) && quote >= -1 && (quote == -1 ==> self.chrOffset >= offset+2) [cursor-wf]
+//@   ensures specLexWF(self) [cursor-wf]
+
+//@ func isDecimalDigit pure
+
+//@ func (*_parser).switch2 safe
+//@   props C01
+//@   requires specLexWF(self)
+//@   ensures specLexWF(self) [cursor-wf]
+//@ func (*_parser).switch3 safe
+//@   props C01
+//@   requires specLexWF(self)
+//@   ensures specLexWF(self) [cursor-wf]
+//@ func (*_parser).switch4 safe
+//@   props C01
+//@   requires specLexWF(self)
+//@   ensures specLexWF(self) [cursor-wf]
+//@ func (*_parser).switch6 safe
+//@   props C01
+//@   requires specLexWF(self)
+//@   ensures specLexWF(self) [cursor-wf]
+
+// The caller has already consumed the '.' when decimalPoint is set.
+//@ func (*_parser).scanNumericLiteral safe
+//@   props C01
+//@   requires specLexWF(self) && (decimalPoint ==> self.chrOffset >= 1)
+//@   ensures specLexWF(self) [cursor-wf]
+
+//@ func (*_parser).parseTemplateCharacters safe
+//@   props C01
+//@   requires specLexWF(self)
+//@   loop 1 vars offset int
+//@   loop 1 invariant specLexWF(self) && 0 <= offset && offset <= self.chrOffset && self.str == old(self.str) [cursor-wf]
+//@   ensures specLexWF(self) [cursor-wf]
+
+//@ func (*_parser).scan safe
+//@   props C01
+//@   requires specLexWF(self)
+//@   loop 1 invariant specLexWF(self) [cursor-wf]
+//@   ensures specLexWF(self) [cursor-wf]
+
+//@ func (*_parser).peek safe
+//@   props C01
+//@   requires specLexWF(self)
+//@   ensures specLexWF(self) [cursor-wf]
